@@ -222,6 +222,18 @@ func TestVerif_C08(t *testing.T) {
 			}
 			raw.WriteString(k + sep + v + "\r\n")
 		}
+		if ci%53 == 7 {
+			// a header just below 1 MiB (the endpoints' default limit): with the signature on top the
+			// stored header is larger than that; it still has to come back whole from the spool
+			var big strings.Builder
+			big.WriteString("References:")
+			for big.Len() < (1<<20)-raw.Len()-400 {
+				big.WriteString("\r\n <" + strings.Repeat("r", 60) + "@example.org>")
+			}
+			raw.WriteString(big.String() + "\r\n")
+			raw.WriteString("Subject: the last field of a very large header\r\n")
+			stats["huge-header"]++
+		}
 		raw.WriteString("\r\n")
 		hdr, err := textproto.ReadHeader(bufioReader(&raw))
 		if err != nil {
